@@ -139,7 +139,13 @@ def _worker(args):
     try:
         import_pane()
         mod = importlib.import_module(modname)
-        return mod.run_shard(shard, tier)
+        res = mod.run_shard(shard, tier)
+        # every witness remembers the shard that produced it: a violation that depends on what ran before it in that
+        # process (memo tables, registries) is replayed by re-running the whole shard in a fresh interpreter
+        for lst in res['violations'].values():
+            for v in lst:
+                v.setdefault('origin', {'shard': shard, 'tier': tier})
+        return res
     except BaseException:
         r = new_result()
         r['errors'].append(f"shard {str(shard)[:300]} crashed:\n{traceback.format_exc()}")
@@ -194,7 +200,7 @@ def confirm(prop, path):
     """Re-run one replay file in a fresh interpreter. Returns 'violation', 'clean' or 'fault'."""
     env = dict(os.environ)
     p = subprocess.run([PY, os.path.join(VERIF, 'check'), prop, '--replay', path, '--quiet'],
-                       env=env, capture_output=True, text=True, timeout=600)
+                       env=env, capture_output=True, text=True, timeout=1800)
     if p.returncode == 1:
         return 'violation'
     if p.returncode == 0:
@@ -203,13 +209,28 @@ def confirm(prop, path):
     return 'fault'
 
 
-def run_replay(mod, path, quiet=False):
+def run_replay(mod, path, quiet=False, shard_only=False):
     import_pane()
     with open(path) as f:
         data = json.load(f)
-    viols = mod.replay(data['cell'])
     want = sig_key(data.get('sig', {}))
-    same = [v for v in viols if sig_key(v['sig']) == want] or viols
+    if shard_only:
+        # history-dependent witness: re-run the shard it came from, in this fresh interpreter, in the same deterministic order
+        res = mod.run_shard(data['origin']['shard'], data['origin']['tier'])
+        same = list(res['violations'].get(want, []))
+        if same and not quiet:
+            print("(reproduced by re-running the originating shard: the violation depends on the operations before it)")
+    else:
+        viols = mod.replay(data['cell'])
+        same = [v for v in viols if sig_key(v['sig']) == want] or viols
+        if not same and data.get('origin'):
+            # the cell alone is clean in a fresh process: try the whole shard, in yet another fresh process (this one has
+            # already built the cell's types and converters, which is itself a different history)
+            p = subprocess.run([PY, os.path.join(VERIF, 'check'), mod.ID, '--replay', path, '--shard'] + (['--quiet'] if quiet else []),
+                               env=dict(os.environ), capture_output=True, text=True, timeout=1200)
+            if not quiet:
+                sys.stdout.write(p.stdout)
+            return 1 if p.returncode == 1 else 0
     if same:
         if not quiet:
             for v in same[:5]:
@@ -226,6 +247,7 @@ def main(modname, argv):
     tier = os.environ.get('VERIF_TIER', 'quick')
     replay_path = None
     quiet = False
+    shard_only = False
     it = iter(argv)
     for a in it:
         if a == '--tier':
@@ -234,12 +256,14 @@ def main(modname, argv):
             replay_path = next(it)
         elif a == '--quiet':
             quiet = True
+        elif a == '--shard':
+            shard_only = True
         else:
             raise SystemExit(f"unknown argument {a}")
     if tier not in ('quick', 'thorough'):
         raise SystemExit("tier must be quick or thorough")
     if replay_path:
-        return run_replay(mod, replay_path, quiet)
+        return run_replay(mod, replay_path, quiet, shard_only)
 
     seed = int(os.environ.get('VERIF_SEED', '0') or 0)
     t0 = time.time()
@@ -251,7 +275,7 @@ def main(modname, argv):
     total = new_result()
     ctx = multiprocessing.get_context('spawn')
     nproc = min(NPROC, max(1, len(shards)))
-    with ctx.Pool(nproc, maxtasksperchild=getattr(mod, 'MAXTASKS', None)) as pool:
+    with ctx.Pool(nproc, maxtasksperchild=getattr(mod, 'MAXTASKS', 1)) as pool:   # one shard per interpreter: a shard is replayable on its own
         for res in pool.imap_unordered(_worker, [(modname, s, tier) for s in shards]):
             merge(total, res)
 
